@@ -256,9 +256,12 @@ func specs(quick bool) []yangval.Spec {
 	d2 := yangval.Spec{Kind: "decimal64", Fd: 2, Ranges: [][2]string{{"5", "6"}}}
 	e1 := yangval.Spec{Kind: "enumeration", Enums: []string{"auto"}}
 	e2 := yangval.Spec{Kind: "enumeration", Enums: []string{"none", "auto"}}
+	sl := yangval.Spec{Kind: "string", Lengths: [][2]string{{"1", "3"}}}                    // restricted by length only
+	sl2 := yangval.Spec{Kind: "string", Lengths: [][2]string{{"0", "0"}, {"5", "6"}}}      // two length parts, no pattern
 	un := func(m ...yangval.Spec) yangval.Spec { return yangval.Spec{Kind: "union", Members: m} }
 	out = append(out, u1, u2, u3, un(u8a, u8b), un(u8b, u8a), un(sa, sb), un(sb, sa, u8b), un(d1, d2), un(d2, d1), un(e1, e2), un(e2, e1),
-		un(yangval.Spec{Kind: "boolean"}, un(u8a, u8b)), un(un(u8a, sa), un(u8b, sb)), un(u8a, u8a), un(u8a, u8b, u8a))
+		un(yangval.Spec{Kind: "boolean"}, un(u8a, u8b)), un(un(u8a, sa), un(u8b, sb)), un(u8a, u8a), un(u8a, u8b, u8a),
+		un(yangval.Spec{Kind: "int", Bits: 8}, sl), un(sl, u8b), un(yangval.Spec{Kind: "boolean"}, un(sl2, u8a)), un(sl, sl2), un(e1, sl2))
 	return out
 }
 
